@@ -180,7 +180,7 @@ def rule_r5(facts, col, rule_id="C02.R5"):
         if t["f"].get("name") not in ("entry", "insert", "try_insert") or len(t["args"]) < 2:
             continue
         key = "%s:%s:key" % (body.q, t["f"]["name"])
-        k = peel(body.operand_expr(t["args"][1]), through_try=False)
+        k = peel(expand_local_call(facts, body.operand_expr(t["args"][1])), through_try=False)
         ok = k.k == "bin" and k.op == "Rem" and any(x.k == "call" and (x.q or "").endswith("BufferState::capacity") for x in walk(k.b))
         if ok:
             col.ok(rule_id, key, body.where(bb), "key = (..) % capacity()")
